@@ -277,9 +277,16 @@ def fam_panic(rng):
             elif x < 0.75:
                 g = t * R + rng.randrange(6)
                 ops += [{"op": "load", "c": 0, "g": g}, {"op": "store", "c": 0, "v": new(True)}, {"op": "drop_g", "g": g}]
-            elif x < 0.9:
+            elif x < 0.82:
                 g = t * R + rng.randrange(6)
                 ops += [{"op": "cas", "c": 0, "cur": "null", "v": new(True), "g": g}, {"op": "drop_g", "g": g}]
+            elif x < 0.9:
+                # the guard itself (by value / by reference) as `current`, its value possibly replaced meanwhile
+                g, g2 = t * R + rng.randrange(6), t * R + 6 + rng.randrange(2)
+                ops += [{"op": "store", "c": 0, "v": new(True)}, {"op": "load", "c": 0, "g": g2}]
+                if rng.random() < 0.6:
+                    ops.append({"op": "store", "c": 0, "v": new(rng.random() < 0.5)})
+                ops += [{"op": "cas", "c": 0, "cur": {rng.choice(["g", "g", "gref"]): g2}, "v": new(rng.random() < 0.3), "g": g}, {"op": "drop_g", "g": g}]
             else:
                 ops += reader_ops(rng, t, 0, 1)
         th.append(ops)
@@ -568,6 +575,13 @@ def sandwich(tier="quick", start_id=0):
                          ("cold ld/st/nofast", ld, st, "nofast", 36, 60), ("ld2/st/nofast", warm + ld + ld, warm2 + st + st, "nofast", 40, 80)]
     # A-B-A on the stored pointer while a compare_and_swap / rcu is in flight (the same value is stored back)
     aba = warm2 + [{"op": "load_full", "c": 0, "h": 44}, {"op": "store", "c": 0, "v": new()}, {"op": "store", "c": 0, "v": {"h": 44}}]
+    # compare_and_swap with the guard passed by value / by reference as `current`, two stores meanwhile (address reuse)
+    casg = [{"op": "load", "c": 0, "g": 36}, {"op": "cas", "c": 0, "cur": {"g": 36}, "v": new(), "g": 35}, {"op": "deref_g", "g": 35}]
+    casr = [{"op": "load", "c": 0, "g": 36}, {"op": "cas", "c": 0, "cur": {"gref": 36}, "v": new(), "g": 35}, {"op": "deref_g", "g": 35}]
+    st2 = [{"op": "store", "c": 0, "v": new()}, {"op": "store", "c": 0, "v": new()}]
+    pairs_q += [("casg/st2", warm + casg, warm2 + st2, "default", 40, 2), ("casr/st2", warm + casr, warm2 + st2, "default", 40, 2),
+                ("casg/st2/nofast", warm + casg, warm2 + st2, "nofast", 44, 2)]
+    pairs_t += [("casg/st2", warm + casg, warm2 + st2, "default", 44, 70), ("casr/st2", warm + casr, warm2 + st2, "default", 44, 70)]
     ser = [{"op": "ser", "c": 0}]
     pairs_q += [("cas/aba", warm + cas, aba, "default", 40, 2), ("rcu/aba", warm + rcu, aba, "default", 40, 2),
                 ("ser/st", warm + ser, warm2 + st, "default", 24, 2)]
